@@ -6,6 +6,7 @@ import PlatypusModel.Model.Constraint
 import PlatypusModel.Model.PyFloat
 import PlatypusModel.Model.Epsilon
 import PlatypusModel.Model.Sorting
+import PlatypusModel.Model.Crowding
 import PlatypusModel.Model.Grid
 import PlatypusModel.Model.Run
 import PlatypusModel.Model.Survival
@@ -186,6 +187,14 @@ def opsSorting (op : String) : Option (P String) :=
   | "crowdF" => some do
       let nobjs ← nat; let front ← list (list flt)
       pure (" ".intercalate ("c" :: (crowdingF nobjs front).map showFlt))
+  | "crowdG" => some do
+      -- the generic crowding model at Float (`none` shown as +inf)
+      let nobjs ← nat; let front ← list (list flt)
+      pure (" ".intercalate ("c" :: (crowdingGF nobjs front).map showFlt))
+  | "crowdQ" => some do
+      -- the generic crowding model at Rat; eps = 2^-52; "inf" for +infinity
+      let nobjs ← nat; let front ← list (list rat)
+      pure (" ".intercalate ("c" :: (crowdingG (mkRat 1 4503599627370496) nobjs front).map fun | none => "inf" | some q => showRat q))
   | "ntrunc" => some do
       let xs ← list (do let id ← nat; let r ← nat; let cd ← flt; pure ({ id := id, rank := r, cd := cd } : Ranked Float))
       let k ← nat
